@@ -112,6 +112,7 @@ type Profile struct {
 	Caps     []int64
 	MaxData  int
 	Adversarial int // percent of events drawn from the adversarial pool
+	Replicas    []int64  // replica counts for new stores (default 1..3)
 	LateNodes   []string // accounts that may register as nodes later in the trace
 	ShortBlocks bool     // keep block advances short (reward traces stay inside the exact fragment)
 }
@@ -295,6 +296,9 @@ func (d *Driver) Next() Event {
 			owner := d.pick(d.ownerDids())
 			cr, pv := d.gatewayFor(d.R)
 			rep := int64(1 + d.R.Intn(3))
+			if len(d.P.Replicas) > 0 {
+				rep = d.pickI(d.P.Replicas)
+			}
 			e := Event{Kind: "Store", Creator: cr, Provider: pv, Gw: pv, Owner: owner, Signer: owner, Data: data, Commit: data, Op: 1, Dur: d.pickI(d.P.Durs), Replica: rep, Timeout: d.pickI(d.P.Timeouts), Size: d.pickI(d.P.Sizes), Alias: "al" + data}
 			if d.R.Intn(5) == 0 {
 				// let the owner's own account submit (bound-account path is did:sid only; for key dids this is the error path)
@@ -497,7 +501,7 @@ func (d *Driver) allDids() []string {
 func (d *Driver) Twist(e Event) Event {
 	signed := e.Kind == "Store" || e.Kind == "Terminate" || e.Kind == "Renew" || e.Kind == "Permission"
 	for tries := 0; tries < 10; tries++ {
-		switch d.R.Intn(9) {
+		switch d.R.Intn(10) {
 		case 0: // signed by someone else, owner field untouched
 			if signed {
 				e.Signer = d.pick(d.allDids())
@@ -524,7 +528,15 @@ func (d *Driver) Twist(e Event) Event {
 			e.Creator = d.pick(d.allAccounts())
 			e.Provider = d.pick(d.P.Nodes)
 			return e
-		case 5: // claimed provider differs
+		case 5: // act through another node (or one of the addresses it declared), whatever gateway the request names
+			x := d.pick(d.P.Nodes)
+			e.Provider = x
+			e.Creator = x
+			if hk := d.P.HotKeys[x]; len(hk) > 0 && d.R.Intn(3) != 0 {
+				e.Creator = d.pick(hk)
+			}
+			return e
+		case 9: // claimed provider differs
 			e.Provider = d.pick(d.P.Nodes)
 			return e
 		case 6: // crafted commit id
@@ -570,8 +582,100 @@ func (d *Driver) Twist(e Event) Event {
 	return e
 }
 
+// NextDid produces the next event of the DID-registry profile: bindings with valid, forged, stale and
+// replayed proofs by arbitrary submitters, key rotations that drop / keep arbitrary accounts, payment-address
+// updates of sid and key DIDs.
+func (d *Driver) NextDid() Event {
+	accs := d.allAccounts()[:8]
+	sids := []string{"s1", "s2", "s3"}
+	boundTo := func(did string) []string {
+		var out []string
+		for _, b := range d.St.Bindings {
+			if b.Did == did {
+				out = append(out, b.Acc)
+			}
+		}
+		return out
+	}
+	for tries := 0; tries < 30; tries++ {
+		switch x := d.R.Intn(100); {
+		case x < 45:
+			did := d.pick(sids)
+			acc := d.pick(accs)
+			creator := acc
+			if bs := boundTo(did); len(bs) > 0 && d.R.Intn(4) != 0 {
+				creator = d.pick(bs)
+			} else if d.R.Intn(3) == 0 {
+				creator = d.pick(accs)
+			}
+			e := Event{Kind: "Binding", Creator: creator, Acc: acc, Did: did, Amount: []int64{0, 0, 0, -100, -899, -900, -901, -5000, 100}[d.R.Intn(9)]}
+			if d.R.Intn(6) == 0 {
+				e.SigMode = []string{"wrongkey", "none", "replay", "replay"}[d.R.Intn(4)]
+			}
+			return e
+		case x < 70:
+			did := d.pick(sids)
+			bs := boundTo(did)
+			if len(bs) == 0 {
+				continue
+			}
+			var rm, keep []string
+			for _, a := range bs {
+				if d.R.Intn(3) == 0 {
+					rm = append(rm, a)
+				} else {
+					keep = append(keep, a)
+				}
+			}
+			if d.R.Intn(6) == 0 && len(keep) > 0 { // forget one account: not all handled
+				keep = keep[1:]
+			}
+			creator := d.pick(bs)
+			if d.R.Intn(5) == 0 {
+				creator = d.pick(accs)
+			}
+			e := Event{Kind: "DidUpdate", Creator: creator, Did: did, Tx: rm, Datas: keep, Amount: []int64{0, 0, -901, -100}[d.R.Intn(4)]}
+			if d.R.Intn(5) == 0 {
+				for _, sd := range d.St.Seeds {
+					if sd.Did == did && len(sd.Accs) > 0 {
+						e.Commit = sd.Accs[0] // replayed past seed
+					}
+				}
+			}
+			return e
+		case x < 85:
+			did := d.pick(sids)
+			bs := boundTo(did)
+			creator := d.pick(accs)
+			acc := d.pick(accs)
+			if len(bs) > 0 && d.R.Intn(4) != 0 {
+				creator = d.pick(bs)
+				acc = d.pick(bs)
+			}
+			return Event{Kind: "PayAddrSid", Creator: creator, Acc: acc, Did: did}
+		case x < 95:
+			did := d.pick(d.allDids())
+			acc := d.pick(accs)
+			creator := acc
+			if d.R.Intn(4) == 0 {
+				creator = d.pick(accs)
+			}
+			return Event{Kind: "PayAddr", Creator: creator, Acc: acc, Did: did}
+		default:
+			return Event{Kind: "Blocks", N: int64(1 + d.R.Intn(3))}
+		}
+	}
+	return Event{Kind: "Blocks", N: 1}
+}
+
 // Run performs setup and n random events.
 func (d *Driver) Run(n int) {
+	if d.P.Name == "did" {
+		for i := 0; i < n && d.Stop == ""; i++ {
+			d.do(d.NextDid())
+		}
+		return
+	}
 	d.Setup()
 	for i := 0; i < n && d.Stop == ""; i++ {
 		e := d.Next()
